@@ -79,11 +79,11 @@ $(KITDIR)/%.o: $(VERIF)/kits/%.cpp
 
 $(BUILD)/vx/%.o: $(VERIF)/vx/%.c
 	@mkdir -p $(BUILD)/vx
-	gcc -O1 -g0 -c $< -o $@
+	gcc -O1 -g0 -MMD -MP -c $< -o $@
 
 $(BUILD)/vx/%.o: $(VERIF)/vx/%.cpp
 	@mkdir -p $(BUILD)/vx
-	$(CXX) -O1 -g0 -std=c++20 -I$(VERIF) -c $< -o $@
+	$(CXX) -O1 -g0 -std=c++20 -I$(VERIF) -MMD -MP -c $< -o $@
 
 # a source is taken from the shadow tree when it exists there
 srcof = $(if $(and $(SHADOW),$(wildcard $(SHADOW)/src/$(1))),$(SHADOW)/src/$(1),$(REPO)/src/$(1))
@@ -99,5 +99,5 @@ $(OUT)/mut/%.o: $$(call srcof,$$*.cpp)
 $(OUT)/harness: $(OBJS) $(TSANOBJS) $(MUTOBJS) $(KITOBJS) $(SCHEDOBJS) $(LIBS)
 	$(CXX) -pthread -o $@ $(OBJS) $(TSANOBJS) $(filter-out $(patsubst $(OUT)/tsan/%,$(OUT)/mut/%,$(TSANOBJS)),$(MUTOBJS)) $(KITOBJS) $(SCHEDOBJS) $(LIBS) $(SYSLIBS) $(LDEXTRA)
 
--include $(OBJS:.o=.d) $(KITOBJS:.o=.d) $(TSANOBJS:.o=.d)
+-include $(OBJS:.o=.d) $(KITOBJS:.o=.d) $(TSANOBJS:.o=.d) $(SCHEDOBJS:.o=.d)
 .PHONY: all kits
